@@ -7,6 +7,19 @@ from vlib import cN, cNlist, clist, cbool, chex
 
 IMPORTS = "From DtlsV Require Import Lib.Bytes Rec.Window State.C19Export State.C19Run."
 SITE = "state.go / resume.go"
+MAX_SEQ = (1 << 48) - 1
+# monitors of defects that were found by the round-2 audit; (site, signature) are the registered ones
+F67 = ("conn.go prepareHandshakeStart / resume.go resumeWithConfig", {"monitor": "resume-state-ignored-with-dtls13-options"})
+F73 = ("state.go generateState", {"monitor": "connectionstate-panic-epoch-switch"})
+F74 = ("state.go generateInternalState", {"monitor": "serialised-sequence-number-beyond-limit"})
+SEQ_LOWERED = ("state.go UnmarshalBinary (serializedState has no integrity check)",
+               {"monitor": "corrupted-state-reuses-record-numbers", "differs_in": "sequence number lowered"})
+K1 = ("state.go initializedCipherSuite / generateInternalState (ciphersuite.ForID(id, nil))",
+      {"monitor": "custom-suite-session-not-exportable"})
+K2 = ("conn.go prepareHandshakeStart12 / handshake fsm12.finish (a resumed connection keeps no final flight)",
+      {"monitor": "resumed-final-flight-owner-cannot-retransmit"})
+K3 = ("conn.go createConn (the resume state is installed by prepareHandshakeStart12, at the first Handshake/Read/Write)",
+      {"monitor": "resumed-conn-reports-nothing-before-first-io"})
 PARAM_FIELDS = ["suite", "session_id", "alpn", "hint", "certs", "cert_lens", "profile", "mki", "local_cid",
                 "remote_cid", "rrc", "is_client", "version", "local_epoch", "remote_epoch", "local_random",
                 "remote_random", "master"]
@@ -102,10 +115,24 @@ def resumed(c):
 def monitor_main(c):
     """the property's statements on one implementation run; returns list of (monitor, text)"""
     out = []
+    if (c["export_ok"] and c["marshal_err"] == "ok" and c["decode_err"] == "ok" and c["resume_err"] == "ok"
+            and c["start_err"] != "ok" and c["variant"].get("vers")):
+        w = (c.get("start_wire") or [None])[0]
+        out.append(("F67", "a connection resumed from a DTLS 1.2 state with options that allow DTLS 1.3 (version range "
+                    "%#x..%#x) does not start in the finished state: HandshakeContext: %s; %s" % (
+                        c["cfg_min"], c["cfg_max"], c["start_err"],
+                        "it wrote nothing (a resumed server waits for a ClientHello)" if not w else
+                        "first record it wrote: content type %d, epoch %d, seq %d (22/0 = plaintext handshake)"
+                        % (w["ct"], w["e"], w["s"]))))
+        return out
     if not resumed(c):
         out.append(("resume-refused", "export_ok=%s marshal=%s decode=%s resume=%s start=%s" % (
             c["export_ok"], c["marshal_err"], c["decode_err"], c["resume_err"], c["start_err"])))
         return out
+    if not c["early_state_ok"] or c["early_srtp"] != c["srtp_before"]:
+        out.append(("K3", "between Resume and its first Handshake/Read/Write the resumed Conn reports ConnectionState() "
+                    "ok=%s and SRTP profile/MKI %s; the exported connection reported %s (negotiated parameters and keying "
+                    "material are unavailable until the first I/O)" % (c["early_state_ok"], c["early_srtp"], c["srtp_before"])))
     if c["write_errs"]:
         out.append(("data-flow", "write errors: %s" % c["write_errs"]))
     if (c["post_sent_self"] or []) != (c["post_got_peer"] or []):
@@ -143,7 +170,8 @@ def run(chk):
     found_input = False
     for name, test, tmo in (("main", "TestVerifC19Main", 1500), ("corrupt", "TestVerifC19Corrupt", 1500),
                             ("suites", "TestVerifC19Suites", 300), ("custom", "TestVerifC19Custom", 300),
-                            ("mid", "TestVerifC19MidHandshake", 300), ("vc", "TestVerifC19VerifyConn", 600)):
+                            ("mid", "TestVerifC19MidHandshake", 300), ("vc", "TestVerifC19VerifyConn", 600),
+                            ("limit", "TestVerifC19Limit", 600), ("final", "TestVerifC19FinalFlight", 300)):
         outp = vlib.out_path("c19" + name)
         rc, o = vlib.go_test(".", "^%s$" % test, dict(env, VERIF_OUT=outp), timeout=tmo, tags=["c19"])
         legs[name] = vlib.read_jsonl(outp)
@@ -172,8 +200,11 @@ def run(chk):
                 continue
             reported.add(mon)
             found_input = True
-            chk.finding(SITE, {"monitor": mon, "variant": c["variant"]["name"].split("/")[0]}, text,
-                        {"how": how_main, "case": c, "rerun": rerun})
+            site, sig = {"F67": F67, "K3": K3}.get(mon, (SITE, {"monitor": mon, "variant": c["variant"]["name"].split("/")[0]}))
+            chk.finding(site, sig, text, {"how": how_main + (
+                "; variant.vers: 1 = `side` is a dual-stack endpoint (MaxVersion 1.3) and its peer speaks 1.2 only, "
+                "resumed with the same options; 2 = resumed with options MinVersion = MaxVersion = 1.3"
+                if mon == "F67" else ""), "case": c, "rerun": rerun})
     for c in corrupt:
         if c["result"] == "panic":
             found_input = True
@@ -182,6 +213,128 @@ def run(chk):
                         {"how": "State.UnmarshalBinary(bytes) then resumeWithConfig", "bytes_hex": c["hex"],
                          "mutation": c["mut"], "base": c["base"], "rerun": rerun})
             break
+    # record numbers of a connection resumed from damaged bytes: the exporting connection has used every
+    # number below its exported one in its local epoch
+    def reused(c):
+        o = c.get("orig") or {}
+        post = [(w["e"], w["s"]) for w in (c.get("post_wire") or [])]
+        old = [x for x in post if x[0] == o.get("local_epoch") and x[1] < o.get("seq", 0)]
+        dup = sorted({x for x in post if post.count(x) > 1})
+        return old, dup
+
+    def corrupt_replay(c):
+        b = bases.get((c["base"], c["side"]), {})
+        return {"how": "UnmarshalBinary(bytes_hex) succeeds; resumeWithConfig from it against a peer resumed from "
+                       "peer_state_hex (the untouched peer's own export); the resumed side writes k records (werrs = "
+                       "the result of each Write), post_wire = (epoch, seq, content type) of what it put on the wire; "
+                       "the exporting connection had used every number below original.seq in its local epoch",
+                "mutation": c["mut"], "bytes_hex": c["hex"], "original_hex": b.get("orig_hex"),
+                "peer_state_hex": b.get("peer_hex"), "base": c["base"], "side": c["side"], "original": c.get("orig"),
+                "decoded": c.get("decoded"), "k": c.get("k"), "werrs": c.get("werrs"), "post_wire": c.get("post_wire"),
+                "x2p": c["x2p"], "p2x": c["p2x"], "rerun": rerun}
+
+    beyond = [c for c in corrupt if c["result"] in ("ok-same", "ok-diff") and c["decoded"]["seq"] > MAX_SEQ + 1]
+    beyond.sort(key=lambda c: (0 if any(reused(c)) else 1, 0 if c["mut"].startswith("struct:") else 1, c["base"], c["mut"]))
+    for c in beyond[:1]:
+        old, dup = reused(c)
+        found_input = True
+        chk.finding(F74[0], F74[1],
+                    "a serialised state with sequence number %d (the limit is 2^48 = %d) was accepted (authenticates the "
+                    "peer's records: %s); writes: %s; records on the wire: %s%s" % (
+                        c["decoded"]["seq"], MAX_SEQ + 1, c["p2x"], c["werrs"],
+                        [(w["e"], w["s"]) for w in c["post_wire"]],
+                        "" if not (old or dup) else "; REUSED numbers of the exporting connection (its next number was %d): %s"
+                        % (c["orig"]["seq"], old or dup)), corrupt_replay(c))
+    lowered = [c for c in corrupt if c["result"] == "ok-diff" and c["decoded"]["seq"] <= MAX_SEQ + 1 and any(reused(c))]
+    lowered.sort(key=lambda c: (0 if c["diff"] == ["seq"] else 1, 0 if c["mut"].startswith("seqbyte") else 1,
+                                0 if c["p2x"] else 1, c["base"], c["mut"]))
+    for c in lowered[:1]:
+        old, dup = reused(c)
+        found_input = True
+        chk.finding(SEQ_LOWERED[0], SEQ_LOWERED[1],
+                    "damage that lowers the serialised sequence number (%d -> %d, mutation %s, decoded state differs in %s) "
+                    "is accepted, the resumed connection authenticates the peer's records (%s) and re-sends record numbers "
+                    "the exporting connection had used, under the same keys: %s (such cases this run: %d)" % (
+                        c["orig"]["seq"], c["decoded"]["seq"], c["mut"], c["diff"], c["p2x"], old or dup, len(lowered)),
+                    corrupt_replay(c))
+
+    # K-C19-1: a session on a suite of the configuration's custom list
+    for c in legs["custom"]:
+        bad = [k for k in ("decode_err", "resume_err", "resume_cfg_err", "ekm_err") if c[k] != "ok"]
+        if c["panic"] or not c["export_ok"] or c["marshal_err"] != "ok" or bad:
+            found_input = True
+            chk.finding(K1[0], K1[1],
+                        "a session negotiated on a cipher suite of WithCustomCipherSuites (id %#x) is established and "
+                        "ConnectionState() returns it (ok=%s, MarshalBinary: %s), but UnmarshalBinary of the untouched bytes: "
+                        "%s; resumeWithConfig(State, config that lists the suite): %s; State.ExportKeyingMaterial: %s%s" % (
+                            c["suite"], c["export_ok"], c["marshal_err"], c["decode_err"], c["resume_cfg_err"], c["ekm_err"],
+                            "" if not c["panic"] else "; panic: " + c["panic"]),
+                        {"how": "both sides customCipherSuites = TLS_PSK_WITH_AES_128_GCM_SHA256 under the private id 0xff19; "
+                                "handshake; ConnectionState / MarshalBinary / UnmarshalBinary / generateInternalState / "
+                                "resumeWithConfig / ExportKeyingMaterial on `side`", "case": c, "rerun": rerun})
+            break
+
+    # F73: ConnectionState() while the handshake runs
+    probes = [c for c in legs["mid"] if c["kind"] == "midhandshake"]
+    for c in probes:
+        if c["outcome"] == 2:
+            found_input = True
+            chk.finding(F73[0], F73[1],
+                        "ConnectionState() panicked while the handshake was between two steps: %s (at %r; local epoch %d, "
+                        "LocalSequenceNumber %s)" % (c["panic"], c["at"], c["state"]["local_epoch"], c["state"]["local_seq"]),
+                        {"how": "a LoggerFactory whose Trace/Tracef calls Conn.ConnectionState() (skipped when the "
+                                "connection lock is held) on `side` of a handshake of `variant`: a deterministic stand-in for "
+                                "a caller on another goroutine", "case": c, "rerun": rerun})
+            break
+    for c in legs["mid"]:
+        if c["kind"] == "midsummary" and (not c["established"] or not c["probes"]):
+            chk.broken("mid-handshake harness: handshake of %s (%s probed) established=%s probes=%d"
+                       % (c["variant"], c["side"], c["established"], c["probes"]), "")
+
+    # K-C19-2: the final flight is lost and its owner is exported
+    for c in legs["final"]:
+        recovered = c["peer_done"] and c["o2p"] and c["p2o"]
+        if not c["owner_done"] or c["dropped"] != 1 or (not c["export"] and not recovered):
+            chk.broken("final-flight harness: control run of %s does not recover from the lost final flight "
+                       "(owner_done=%s dropped=%d peer_done=%s)" % (c["variant"], c["owner_done"], c["dropped"], c["peer_done"]),
+                       str(c))
+    for c in legs["final"]:
+        if c["export"] and c["owner_done"] and not (c["peer_done"] and c["o2p"] and c["p2o"]):
+            found_input = True
+            chk.finding(K2[0], K2[1],
+                        "the %s was exported and resumed right after its handshake completed (resume: %s, start: %s); its "
+                        "final flight had been lost; the untouched peer retransmitted %d datagrams in 40 s and the resumed "
+                        "connection wrote %s: the peer's handshake: %s; data owner->peer %s, peer->owner %s (the control "
+                        "run without export recovers)" % (
+                            c["owner"], c["resume_err"], c["start_err"], c["peer_retransmissions"],
+                            [(w["e"], w["s"], w["ct"]) for w in c["owner_wire"]] or "nothing", c["peer_err"], c["o2p"], c["p2o"]),
+                        {"how": "handshake of `variant`; the first datagram of `owner` that starts with ChangeCipherSpec is "
+                                "dropped; once the owner's HandshakeContext returned nil: ConnectionState / MarshalBinary / "
+                                "UnmarshalBinary / resumeWithConfig on a fresh endpoint; the peer keeps retransmitting",
+                         "case": c, "control": [x for x in legs["final"] if x["variant"] == c["variant"] and not x["export"]],
+                         "rerun": rerun})
+            break
+
+    # export near the sequence number limit: no number beyond 2^48 - 1, none twice, everything written arrives
+    for c in legs["limit"]:
+        nums = [(w["e"], w["s"]) for w in c["pre"] + c["post"]]
+        bad = None
+        if any(s_ > MAX_SEQ for _, s_ in nums):
+            bad = "a record number beyond 2^48 - 1 was put on the wire"
+        elif len(set(nums)) != len(nums):
+            bad = "a record number was used twice"
+        elif len(c["peer_got"]) != len(nums) or (c["resumed"] and c["p2x_sent"] and not c["p2x"]):
+            bad = "a record that was written did not arrive (peer read %d of %d; peer->resumed delivered: %s)" % (
+                len(c["peer_got"]), len(nums), c["p2x"])
+        if bad:
+            found_input = True
+            chk.finding(SITE, {"monitor": "sequence", "leg": "limit"},
+                        "export near the sequence number limit: %s; before the export %s, after the resume (%s) %s" % (
+                            bad, [(w["e"], w["s"]) for w in c["pre"]], c["resume_err"], [(w["e"], w["s"]) for w in c["post"]]),
+                        {"how": "establish `variant`, store 2^48 - a into LocalSequenceNumber[local epoch] of `side`, attempt i "
+                                "writes, export / resume, attempt k writes, one write of the peer", "case": c, "rerun": rerun})
+            break
+
     # "rejected or cannot authenticate": an accepted state that differs from the exported one and
     # whose connection still exchanges authenticated records with the peer
     live = [c for c in corrupt if c["result"] == "ok-diff" and (c["x2p"] or c["p2x"])]
@@ -243,12 +396,7 @@ def run(chk):
         "example": None if not acc else {"variant": acc[0]["variant"]["name"], "side": acc[0]["side"],
                                          "record": acc[0]["replay_wire"], "payload": acc[0]["replay_payload"],
                                          "datagram_hex": acc[0]["replay_hex"]}}
-    obs["custom_suite"] = legs["custom"]
-    obs["connection_state_mid_handshake"] = [c for c in legs["mid"] if c.get("panic")]
     chk.cov["observations"] = obs
-    for c in obs["connection_state_mid_handshake"][:1]:
-        vlib.log("[c19] observation (not an established connection, outside C19): ConnectionState() panics "
-                 "mid-handshake: %s at %r" % (c["panic"], c["at"]))
     if acc:
         vlib.log("[c19] observation: %d/%d replays of already-delivered peer records accepted after resume"
                  % (len(acc), len(rep)))
@@ -259,12 +407,12 @@ def run(chk):
         chk.broken("model State/C19Run.v no longer compiles", mout)
     else:
         # main
-        ms = [c for c in main if c["export_ok"] and c["decode_err"] == "ok" and c["resume_err"] == "ok"
-              and c["start_err"] == "ok"]
-        mterms = ["(%s, %s, %s, %s, %s, %s, %s, %s, %s)" % (
+        ms = [c for c in main if c["export_ok"] and c["decode_err"] == "ok" and c["resume_err"] == "ok"]
+        mterms = ["(%s, %s, %s, %s, %s, %s, %s, %s, %s, (%d, %d, %s, %s))" % (
             c_istate(c["before"]), c_pstate(c["exported"]), c_pstate(c["decoded"]), c_istate(c["after"]),
             c_istate(c["peer_state"]), c_pairs(c["pre_self"]), c_pairs(c["post_self"]),
-            c_optbool(c["post_sent_self"], c["post_got_peer"]), c_optbool(c["post_sent_peer"], c["post_got_self"]))
+            c_optbool(c["post_sent_self"], c["post_got_peer"]), c_optbool(c["post_sent_peer"], c["post_got_self"]),
+            c["cfg_min"], c["cfg_max"], cbool(c["start_err"] == "ok"), cbool(c["early_state_ok"]))
             for c in ms]
         bad, err = vlib.coq_mismatches("c19m", IMPORTS, "main_case", "main_ok", mterms, shard=40)
         if bad is None:
@@ -287,7 +435,9 @@ def run(chk):
             v = c["variant"]["name"].split("/")[0]
             variants[v] = variants.get(v, 0) + 1
         chk.leg_info("main", suites=variants,
-                     features={f: sum(1 for c in main if c["variant"][f]) for f in ("cid", "srtp", "mki", "alpn", "mutual", "sess")},
+                     features={f: sum(1 for c in main if c["variant"][f]) for f in ("cid", "srtp", "mki", "alpn", "mutual", "sess", "vers")},
+                     options_allow_dtls13={"dual-stack (negotiated with these options)": sum(1 for c in main if c["variant"]["vers"] == 1),
+                                           "1.3 only (resume options)": sum(1 for c in main if c["variant"]["vers"] == 2)},
                      sides={s: sum(1 for c in main if c["side"] == s) for s in ("client", "server")},
                      exhaustive="every (i,j) in 0..3 x 0..3 on both sides for %d variants" % (34 if chk.tier == "thorough" else 3),
                      abbreviated_handshakes=sum(1 for c in main if c["variant"]["sess"] == 2))
@@ -297,10 +447,11 @@ def run(chk):
         cterms = []
         for c in cs:
             dec_ok = c["result"] in ("ok-same", "ok-diff", "err-resume", "err-start")
-            cterms.append("(%s, %s, %s, %s, %s, %s, %s)" % (
+            cterms.append("(%s, %s, %s, %s, %s, %s, %s, %d, %s)" % (
                 "None" if not c.get("input") else "(Some %s)" % c_sstate(c["input"]),
                 cbool(dec_ok), c_pstate(c.get("decoded") or ZERO_P), c_pstate(c.get("peer") or ZERO_P),
-                cbool(c["result"] in ("ok-same", "ok-diff")), cbool(c["x2p"]), cbool(c["p2x"])))
+                cbool(c["result"] in ("ok-same", "ok-diff")), cbool(c["x2p"]), cbool(c["p2x"]),
+                c.get("k") or 0, c_pairs(c.get("post_wire"))))
         bad, err = vlib.coq_mismatches("c19c", IMPORTS, "corrupt_case", "corrupt_ok", cterms, shard=60)
         if bad is None:
             chk.broken("correspondence evaluation (corrupt) failed in coqc", err)
@@ -309,7 +460,9 @@ def run(chk):
                 c = cs[i]
                 chk.finding("state.go UnmarshalBinary / generateInternalState", {"monitor": "model-mismatch", "leg": "corrupt"},
                             "treatment of a corrupted state differs from State/C19Export.v model (mutation %s, result %s, "
-                            "x2p=%s p2x=%s, differs in %s)" % (c["mut"], c["result"], c["x2p"], c["p2x"], c["diff"]),
+                            "x2p=%s p2x=%s, differs in %s, records written %s)" % (
+                                c["mut"], c["result"], c["x2p"], c["p2x"], c["diff"],
+                                [(w["e"], w["s"]) for w in (c.get("post_wire") or [])]),
                             {"case": c, "correspondence": "State.C19Run.corrupt_ok", "rerun": rerun},
                             no_input=not found_input)
         results = {}
@@ -341,6 +494,57 @@ def run(chk):
         chk.leg_info("verifyconn", callback_not_run=sum(1 for c in legs["vc"] if not c.get("captured")),
                      refused=sum(1 for c in vcs if c["resume_err"] not in ("ok", "")))
 
+        # export near the sequence number limit
+        lim = legs["limit"]
+        lterms = ["(%s, %d, %s, %s, %s, %s, %d, %s, %s)" % (
+            cNlist(c["st0"]), c["i"], c_istate(c["before"]), c_istate(c["peer"]), c_pairs(c["pre"]), cbool(c["resumed"]),
+            c["k"], c_pairs(c["post"]), "None" if not (c["resumed"] and c["p2x_sent"]) else "(Some %s)" % cbool(c["p2x"]))
+            for c in lim]
+        bad, err = vlib.coq_mismatches("c19l", IMPORTS, "limit_case", "limit_ok", lterms, shard=60)
+        if bad is None:
+            chk.broken("correspondence evaluation (limit) failed in coqc", err)
+        else:
+            for i in bad[:1]:
+                c = lim[i]
+                chk.finding(SITE, {"monitor": "model-mismatch", "leg": "limit"},
+                            "export near the sequence number limit differs from State/C19Export.v model (counter moved to "
+                            "2^48 - %d, %d writes: %s; counter at the export 2^48 %+d; resume: %s; %d writes after: %s)" % (
+                                c["a"], c["i"], c["pre_errs"], c["before"]["local_seq"][c["before"]["local_epoch"]] - (1 << 48),
+                                c["resume_err"], c["k"], c["post_errs"]),
+                            {"case": c, "correspondence": "State.C19Run.limit_ok", "rerun": rerun}, no_input=not found_input)
+        chk.count("limit", len(lim), [(c["variant"], c["side"], c["a"], c["i"]) for c in lim],
+                  samples=[{k: c[k] for k in ("variant", "side", "a", "i", "pre", "resume_err", "post", "post_errs")} for c in lim[5:7]])
+        chk.leg_info("limit", refused_beyond_limit=sum(1 for c in lim if c["resume_err"] == "sequence number overflow"),
+                     resumed=sum(1 for c in lim if c["resumed"]),
+                     exhaustive="counter 2^48 - a for a in 0..4 x i in 0..3 writes before the export x both sides x %d variants"
+                                % len({c["variant"] for c in lim}))
+
+        # ConnectionState() while the handshake runs
+        pterms = ["(%s, %d, %s)" % (c_istate(c["state"]), c["outcome"], c_pstate(c.get("got") or ZERO_P)) for c in probes]
+        bad, err = vlib.coq_mismatches("c19p", IMPORTS, "mid_case", "mid_ok", pterms, shard=60)
+        if bad is None:
+            chk.broken("correspondence evaluation (mid-handshake) failed in coqc", err)
+        else:
+            for i in bad[:1]:
+                c = probes[i]
+                chk.finding(F73[0], {"monitor": "model-mismatch", "leg": "mid-handshake"},
+                            "ConnectionState() during the handshake differs from generateState of State/C19Export.v "
+                            "(outcome %d at %r, local epoch %d, LocalSequenceNumber %s)" % (
+                                c["outcome"], c["at"], c["state"]["local_epoch"], c["state"]["local_seq"]),
+                            {"case": c, "correspondence": "State.C19Run.mid_ok", "rerun": rerun}, no_input=not found_input)
+        window = [c for c in probes if c["state"]["suite"] and c["state"]["local_epoch"] >= len(c["state"]["local_seq"])]
+        chk.count("mid-handshake", len(probes), [(c["variant"], c["side"], c["at"]) for c in probes if c["state"]["suite"]],
+                  samples=[{"variant": c["variant"], "side": c["side"], "at": c["at"], "outcome": c["outcome"],
+                            "local_epoch": c["state"]["local_epoch"], "local_seq": c["state"]["local_seq"]} for c in window[:2]])
+        chk.leg_info("mid-handshake", probes_in_the_epoch_switch_window=len(window),
+                     outcomes={k: sum(1 for c in probes if c["outcome"] == v) for k, v in
+                               (("state", 0), ("not available", 1), ("panic", 2))})
+        if not window:
+            chk.broken("mid-handshake harness no longer reaches the window between SetLocalEpoch and the first record "
+                       "of the epoch", "")
+        chk.count("final-flight", len(legs["final"]), [(c["variant"], c["owner"], c["export"]) for c in legs["final"]],
+                  samples=[{k: c[k] for k in ("variant", "owner", "export", "peer_done", "o2p", "p2o")} for c in legs["final"][:2]])
+
         # suite table
         sterms = ["(%d, %s, %s, %s, %s, %d)" % (c["id"], cbool(c["known"]), cbool(c["v13"]), cbool(c["init_ok"]),
                                                   cbool(c["resume"]), c["hash"]) for c in suites]
@@ -364,9 +568,17 @@ def run(chk):
         rule="main: real handshakes in a synctest bubble for every DTLS 1.2 suite of the library (PSK, ECDHE-PSK, ECDSA, RSA; "
              "GCM/CCM/CCM-8/CBC/ChaCha20) x {plain, CID+SRTP+MKI+ALPN+client-auth+session-id}, every (i,j)<=3 grid on both "
              "sides, generated feature/export-point combinations (incl. > 64 records, abbreviated handshakes, one-sided CID); "
+             "plus sessions whose exported side has options that allow DTLS 1.3 (dual stack against a 1.2-only peer, or 1.3-only "
+             "resume options); the Conn is also observed between Resume and its first I/O; "
              "non-trivial = the resumed connection or its peer wrote at least one record; distinct by (variant, i, j, k, m, side). "
              "corrupt: every truncation, generated bit/byte damage and ~90 field-level mutations of 3 (6 thorough) exported states, "
-             "each resumed against the peer's own export; non-trivial = decoded, or refused by a modelled rule. "
+             "each resumed against the peer's own export, the resumed side then writes 3 records whose numbers are compared "
+             "with the model's sender and with the numbers the exporting connection had used (incl. every smaller value of the "
+             "byte that encodes the sequence number); non-trivial = decoded, or refused by a modelled rule. "
+             "limit: the record counter of a live connection is moved to 2^48 - a, i writes, export/resume, 3 writes: numbers on "
+             "the wire, refusal above 2^48. mid-handshake: ConnectionState() from every trace line of the handshake (both sides, "
+             "full and abbreviated) against the model's generateState, incl. the window between SetLocalEpoch and the first record. "
+             "final-flight: the owner of the lost final flight is exported/resumed (control: not exported). "
              "verifyconn: the State handed to a VerifyConnection callback (local epoch 0), on both sides of 6 variants (34 thorough): "
              "serialises and decodes, must be refused by the import. "
              "suites: every 16-bit id known to ForID plus sampled unknown ids.",
@@ -377,6 +589,5 @@ def run(chk):
             "the replay window (pion/transport) is modelled by Rec/Window.v (C06)",
             "uint64 counter wrap needs 2^64 sends on one connection: premise of seq_continues",
         ],
-        explanation="Observations outside the letter of C19 are recorded under coverage.observations: replay of already "
-                    "delivered records after a resume, custom cipher suites cannot be resumed, ConnectionState() during "
-                    "the handshake can panic.")
+        explanation="Observation outside the letter of C19 recorded under coverage.observations: replay of already "
+                    "delivered records after a resume (C06/C09).")
